@@ -97,24 +97,68 @@ Theorem C13_proto_no_panic_params_refuted : forall rs,
 Proof. exact legacy_to_params_panics. Qed.
 Print Assumptions C13_proto_no_panic_params_refuted.
 
-(* still NOT enforced on the protobuf path (reported as findings, not repaired): the dimensions of a
-   funding agreement, the length of a big integer, the number of peers of a proposal *)
+(* the limits the protobuf path did not enforce before c9b3ae4, b6732bb, 953c29f: witnesses against the
+   code as it was (Legacy), each with the verdict of the repaired conversion on the same tree *)
 Theorem C13_proto_funding_agreement_limit_refuted : forall rs,
-  exists b, to_baseprop rs (Some (mkPBP [] 1 [] [] [] (Some w_palloc) (Some (repeat None 1025)) [])) = Ok b
-            /\ (MaxNumAssets < len (bp_fa b))%N.
-Proof. exact funding_agreement_unbounded. Qed.
+  (exists b, Legacy.to_baseprop rs (Some w_fa_tree) = Ok b /\ (MaxNumAssets < len (bp_fa b))%N)
+  /\ to_baseprop rs (Some w_fa_tree) = Err.
+Proof. exact legacy_funding_agreement_unbounded. Qed.
 Print Assumptions C13_proto_funding_agreement_limit_refuted.
 Theorem C13_proto_bigint_limit_refuted :
-  exists a, to_alloc (Some (mkPAl [enc_be 4 0] [enc_u64be 5] (Some [Some [repeat Byte.xff 129]]) [])) = Ok a
-            /\ forallb bigints_ok (al_bals a) = false.
-Proof. exact bigint_unbounded. Qed.
+  (exists a, Legacy.to_alloc_anylen (Some w_big_tree) = Ok a /\ forallb bigints_ok (al_bals a) = false)
+  /\ to_alloc (Some w_big_tree) = Err.
+Proof. exact legacy_bigint_unbounded. Qed.
 Print Assumptions C13_proto_bigint_limit_refuted.
 Theorem C13_proto_peers_limit_refuted : forall rs,
-  exists b part peers,
-    to_msg rs (PLedgerProp (Some (mkPLP (Some (mkPBP [] 1 [] [] [] (Some w_palloc) None [])) None (repeat None 1025))))
-    = Ok (MLedgerProp b part peers) /\ (MaxNumParts < len peers)%N.
-Proof. exact peers_unbounded. Qed.
+  (exists b part peers, Legacy.to_ledger_prop rs (Some w_peers_tree) = Ok (MLedgerProp b part peers)
+                        /\ (MaxNumParts < len peers)%N)
+  /\ to_msg rs (PLedgerProp (Some w_peers_tree)) = Err.
+Proof. exact legacy_peers_unbounded. Qed.
 Print Assumptions C13_proto_peers_limit_refuted.
+
+(* ... and the positive statements for the repaired code.  Accepted values: every amount of an accepted
+   allocation (balances and sub-allocations) fits MaxBigIntLength; in every decoded envelope every
+   allocation does, a funding agreement has at most MaxNumAssets rows of at most MaxNumParts amounts that
+   fit MaxBigIntLength, a ledger channel proposal has MinNumParts..MaxNumParts peers and a virtual
+   channel proposal at most MaxNumParts *)
+Theorem C13_proto_accepted_alloc_amounts_within_limits : forall t a, to_alloc t = Ok a ->
+  forallb bigints_ok (al_bals a) && forallb (fun l => bigints_ok (sa_bals l)) (al_locked a) = true.
+Proof. exact to_alloc_amounts. Qed.
+Print Assumptions C13_proto_accepted_alloc_amounts_within_limits.
+Theorem C13_proto_accepted_baseprop_within_limits : forall rs t b, to_baseprop rs t = Ok b ->
+  fa_dims_ok (bp_fa b) = true /\ forallb bigints_ok (bp_fa b) = true /\ alloc_amounts_ok (bp_bals b) = true.
+Proof. exact to_baseprop_fa. Qed.
+Print Assumptions C13_proto_accepted_baseprop_within_limits.
+Theorem C13_proto_accepted_envelope_amounts_and_peers_within_limits : forall unmarshal rs bs e r,
+  run_flat (dec_pframe unmarshal rs) bs = Ok (e, r) ->
+  Forall (fun a => alloc_amounts_ok a = true) (msg_allocs (e_msg e)) /\ msg_extra_ok (e_msg e) = true.
+Proof.
+  intros u rs bs e r H. apply dec_pframe_ok_inv in H as (pe & H). eapply to_envelope_limits2; exact H.
+Qed.
+Print Assumptions C13_proto_accepted_envelope_amounts_and_peers_within_limits.
+(* Over the limit = rejected *)
+Theorem C13_proto_long_amount_rejected : forall t,
+  forallb bigints_ok (to_balances (pal_balances t)) = false -> to_alloc (Some t) = Err.
+Proof. exact to_alloc_long_amount_rejected. Qed.
+Print Assumptions C13_proto_long_amount_rejected.
+Theorem C13_proto_suballoc_long_amount_rejected : forall t,
+  bigints_ok (to_balance (psa_bals t)) = false -> to_suballoc (Some t) = Err.
+Proof. exact to_suballoc_long_amount_rejected. Qed.
+Print Assumptions C13_proto_suballoc_long_amount_rejected.
+Theorem C13_proto_funding_agreement_over_limit_rejected : forall rs t,
+  fa_dims_ok (to_balances (pbp_fa t)) = false \/ forallb bigints_ok (to_balances (pbp_fa t)) = false ->
+  to_baseprop rs (Some t) = Err.
+Proof. exact to_baseprop_fa_rejected. Qed.
+Print Assumptions C13_proto_funding_agreement_over_limit_rejected.
+Theorem C13_proto_ledger_peers_over_limit_rejected : forall rs p,
+  (len (plp_peers p) < MinNumParts \/ MaxNumParts < len (plp_peers p))%N ->
+  to_msg rs (PLedgerProp (Some p)) = Err.
+Proof. exact to_ledger_peers_rejected. Qed.
+Print Assumptions C13_proto_ledger_peers_over_limit_rejected.
+Theorem C13_proto_virtual_peers_over_limit_rejected : forall rs p,
+  (MaxNumParts < len (pvp_peers p))%N -> to_msg rs (PVirtProp (Some p)) = Err.
+Proof. exact to_virtual_peers_rejected. Qed.
+Print Assumptions C13_proto_virtual_peers_over_limit_rejected.
 
 Example C13_proto_nonvacuous :
   to_alloc (Some (mkPAl [] [enc_u64be 1] None [])) = Err                                 (* backends shorter than assets *)
